@@ -36,6 +36,11 @@ def _replay_one(rec):
         r = impl.call(dsw.latter_map_to_accessor, lm, 1)
         if r["out"] != "ok" or not numpy.array_equal(r["value"], keep):
             bad.append(("latter-map-round-trip", impl.acc_list(keep), impl.jsonable(r.get("value", r))))
+        # the same graph as a user would write it down: plain ints, keys and successors in another order
+        user = {int(k): [int(x) for x in reversed(list(lm[k]))] for k in reversed(list(lm.keys()))}
+        r = impl.call(dsw.latter_map_to_accessor, user, 1)
+        if r["out"] != "ok" or not numpy.array_equal(r["value"], keep):
+            bad.append(("latter-map-round-trip", impl.acc_list(keep), {"user_map": user, "got": impl.jsonable(r.get("value", r))}))
     r = impl.call(dsw.accessor_to_adjacency_matrix, acc)
     if r["out"] != "ok" or impl.jsonable(r["value"]) != rec["matrix"]:
         bad.append(("matrix-content", rec["matrix"], impl.jsonable(r.get("value", r))))
@@ -77,7 +82,17 @@ def record(rng, ngraph, nillegal):
         r = impl.call(dsw.accessor_to_latter_map, acc)
         lm = r["value"] if r["out"] == "ok" else {}
         c["lmap"] = [[int(a), [int(x) for x in b]] for a, b in lm.items()]
-        r = impl.call(dsw.latter_map_to_accessor, lm, k)
+        if i % 2 == 1:      # a user-written map: plain ints, keys and successor lists in arbitrary order
+            keys = [int(a) for a in lm.keys()]
+            rng.shuffle(keys)
+            user = {}
+            for a in keys:
+                vs = [int(x) for x in lm[a]]
+                rng.shuffle(vs)
+                user[a] = vs
+            r = impl.call(dsw.latter_map_to_accessor, user, k)
+        else:
+            r = impl.call(dsw.latter_map_to_accessor, lm, k)
         c["back_lm"] = impl.acc_list(r["value"]) if r["out"] == "ok" else []
         c["has_matrix"] = k <= 3 or (k == 4 and i % 2 == 0)          # order 4: successor indices beyond 127
         c["ones"], c["back_mx"] = [], []
